@@ -28,6 +28,14 @@ pub enum WriteChunkError {
     },
 }
 
+/// Error for a chunk whose content does not fit in its length field.
+fn chunk_too_long(length: usize, bits: u32) -> std::io::Error {
+    std::io::Error::new(
+        std::io::ErrorKind::InvalidInput,
+        format!("chunk of {length} bytes does not fit in a {bits}-bit length field"),
+    )
+}
+
 fn write_chunk_u32<F>(writer: &mut dyn Write, func: F) -> std::result::Result<(), WriteChunkError>
 where
     F: FnOnce(&mut Vec<u8>) -> Result<()>,
@@ -37,7 +45,9 @@ where
         .map_err(Box::from)
         .context(BuildChunkSnafu)?;
 
-    let length = data.len() as u32;
+    let length = u32::try_from(data.len())
+        .map_err(|_| chunk_too_long(data.len(), 32))
+        .context(WriteLengthSnafu)?;
     writer
         .write_u32::<BigEndian>(length)
         .context(WriteLengthSnafu)?;
@@ -56,7 +66,9 @@ where
         .map_err(Box::from)
         .context(BuildChunkSnafu)?;
 
-    let length = data.len() as u16;
+    let length = u16::try_from(data.len())
+        .map_err(|_| chunk_too_long(data.len(), 16))
+        .context(WriteLengthSnafu)?;
     writer
         .write_u16::<BigEndian>(length)
         .context(WriteLengthSnafu)?;
